@@ -365,3 +365,56 @@ func TestVerifScenFwdUnordered(t *testing.T) {
 	}
 	fmt.Printf("SCENFWDUNORD fails=%d\n", n)
 }
+
+// TestVerifScenZeroWindow: a reader that pauses until the peer's window is zero, then resumes; the sender must
+// recover (window probes, SACK-driven restart) and drain (C02).
+func TestVerifScenZeroWindow(t *testing.T) {
+	n, runs := 0, 0
+	for _, buf := range []uint32{4000, 16 * 1024, 64 * 1024} {
+		for _, il := range []int{0, 1} {
+			for _, lossy := range []bool{false, true} {
+				o := simOpts{seed: int64(buf) + int64(il), interleaveA: il, interleaveB: il, setTSN: true, tsnA: ^uint32(0) - 50, tsnB: 5, recvBuf: buf}
+				f := simScenario(t, fmt.Sprintf("zero-window/buf=%d/il=%d/lossy=%v", buf, il, lossy), o, func(s *sim) {
+					a := s.assoc[0]
+					total := 0
+					k := 0
+					// write more than the peer's buffer in messages that each fit into it; nobody reads
+					for total < 3*int(buf) {
+						sz := int(buf)/5 + 17*k
+						if a.BufferedAmount() > 2*int(buf) {
+							break
+						}
+						_ = s.write(0, uint16(k%2), sz, PayloadTypeWebRTCBinary)
+						total += sz
+						k++
+					}
+					// let it run without reading until the window closed
+					for i := 0; i < 400; i++ {
+						for len(s.flight[0]) > 0 || len(s.flight[1]) > 0 {
+							from := 0
+							if len(s.flight[0]) == 0 {
+								from = 1
+							}
+							if lossy && i%7 == 3 {
+								s.drop(from, 0)
+							} else {
+								s.deliver(from, 0, false)
+							}
+						}
+						s.advance(100 * time.Millisecond)
+						s.checkNoStallInvariant()
+					}
+					// the application resumes reading: everything must drain within the bound
+					if !s.runFaultFree(5*60*time.Second, 50*time.Millisecond, s.allDelivered) {
+						s.fail("C02", fmt.Sprintf("association stuck after a zero-window episode (zero-window-stall): delivered=%d,%d of %d,%d buffered=%d rwnd=%d inflight=%d pending=%d",
+							len(s.recvd[1][0]), len(s.recvd[1][1]), len(s.sent[0][0]), len(s.sent[0][1]), a.BufferedAmount(), a.RWND(), a.inflightQueue.size(), a.pendingQueue.size()))
+					}
+					s.checkOrderedPrefix(true)
+					runs++
+				})
+				n += len(f)
+			}
+		}
+	}
+	fmt.Printf("SCENZEROWND runs=%d fails=%d\n", runs, n)
+}
